@@ -14,7 +14,8 @@ Require Import Fggs.Model.Semiring Fggs.Model.SCC Fggs.Model.SumProduct.
 Require Import Fggs.Proofs.BigSum Fggs.Proofs.SP_trees Fggs.Proofs.SP_nonrec Fggs.Proofs.SP_driver
                Fggs.Proofs.SP_main Fggs.Proofs.SP_examples.
 Require Import Fggs.Proofs.Presentation Fggs.Proofs.Presentation_perm Fggs.Proofs.Presentation_nodes
-               Fggs.Proofs.Presentation_dom Fggs.Proofs.Presentation_relabel Fggs.Proofs.Presentation_cor
+               Fggs.Proofs.Presentation_dom Fggs.Proofs.Presentation_relabel Fggs.Proofs.Presentation_wf
+               Fggs.Proofs.Presentation_cor
                Fggs.Proofs.Presentation_examples.
 
 (** * 1. order of the rules *)
@@ -245,13 +246,28 @@ Theorem C12_all_derivations_transfer :
 Proof. exact (@all_trees_transfer). Qed.
 Print Assumptions C12_all_derivations_transfer.
 
+(** a presentation of a non-recursive grammar is non-recursive (the rank function is carried
+    along), its labels keep their shapes, transported index tuples are index tuples *)
+Theorem C12_presentation_preserves :
+  forall rho pel pnl G G', wf_grammar G = true -> presents rho pel pnl G G' ->
+    (forall rank, ranked G rank -> ranked G' (rank_back pel (length (g_labels G)) rank))
+    /\ (forall X, vlab G X -> is_term G' (pel X) = is_term G X /\ lshape G' (pel X) = lshape G X)
+    /\ (forall X xi, vlab G X -> vidx G X xi -> In (pmap rho (ltype G X) xi) (all_assts (lshape G' (pel X)))).
+Proof.
+  exact (fun rho pel pnl G G' Hwf Hp =>
+    conj (fun rank => presents_ranked rho pel pnl G G' rank Hwf Hp)
+   (conj (fun X HX => conj (presents_is_term rho pel pnl G G' X Hp HX) (presents_lshape rho pel pnl G G' X Hwf Hp HX))
+         (fun X xi => presents_vidx rho pel pnl G G' X xi Hwf Hp))).
+Qed.
+Print Assumptions C12_presentation_preserves.
+
 Theorem C12_all_derivations_presentation :
   forall R (o : sr_ops R), sr_ring o ->
-  forall rho pel pnl G G' (w w' : env (R:=R)) rank rank' X xi,
+  forall rho pel pnl G G' (w w' : env (R:=R)) rank X xi,
     wf_grammar G = true -> presents rho pel pnl G G' ->
     (forall l idx, vlab G l -> vidx G l idx -> is_term G l = true ->
                    w' (pel l) (pmap rho (ltype G l) idx) = w l idx) ->
-    ranked G rank -> ranked G' rank' -> vlab G X -> vidx G X xi -> is_term G X = false ->
+    ranked G rank -> vlab G X -> vidx G X xi -> is_term G X = false ->
     forall k k', length (nonterminals G) <= k -> length (nonterminals G') <= k' ->
       let xi' := pmap rho (ltype G X) xi in
       sumS o (enum_trees G' k' (pel X) xi') (weight o G' w') = sumS o (enum_trees G k X xi) (weight o G w)
@@ -295,7 +311,7 @@ Theorem C12_model_presentation :
     (forall l idx, vlab G l -> vidx G l idx -> is_term G l = true ->
                    env_of o w' (pel l) (pmap rho (ltype G l) idx) = env_of o w l idx) ->
     dep_ordered G [] ord -> dep_ordered G' [] ord' -> In X ord -> In (pel X) ord' ->
-    vlab G X -> vidx G X xi -> In (pmap rho (ltype G X) xi) (all_assts (lshape G' (pel X))) ->
+    vlab G X -> vidx G X xi ->
     env_of o (sum_products_nonrec o G' w' (map (fun x => [x]) ord')) (pel X) (pmap rho (ltype G X) xi)
     = env_of o (sum_products_nonrec o G w (map (fun x => [x]) ord)) X xi.
 Proof. exact (@sum_products_nonrec_presentation). Qed.
